@@ -152,9 +152,8 @@ CHECKS['C12'] = dict(
 CHECKS['C07'] = dict(
     text='Theorems over ALL histories of atomic sections (props/C07.v): the library resolves a request-response awaitable at most once, '
          'and never after it was resolved or cancelled; per atomic section a subscriber receives at most one element/terminal signal, '
-         'none once its receiving side is closed, and a terminal signal closes it, hence over every history at most one terminal signal '
-         'and nothing after it (premise: no PAYLOAD reaches a channel whose receive direction is already closed); what the close sweep '
-         'does per kind of interaction. Tied to the code by replaying recorded legal histories of a real endpoint (all models, both '
+         'none once its receiving side is closed, and a terminal signal closes it, hence over EVERY history (no premise) at most one terminal '
+         'signal and nothing after it; on_subscribe is the first signal ever; the complete close sweep theorem. Tied to the code by replaying recorded legal histories of a real endpoint (all models, both '
          'roles/framings, fragmentation, connection lost by EOF/error/close()/mid-frame cut at a random point) through the model inside '
          'Coq, plus the signal-language oracle on the recording application and "no awaitable left pending after close".',
     design_ref='DESIGN.md section 6, C07',
@@ -176,8 +175,7 @@ CHECKS['C09'] = dict(
          'the canceller\'s subscriber is told nothing more; elements and fragments in flight are dropped without trace; after the caller '
          'cancels a request-response the library never resolves it and the callback sends exactly one CANCEL (none if already answered); '
          'a received CANCEL cancels the handler future / publisher in the same atomic section and drops the responder; local and remote '
-         'cancels touch only their own stream. REFUTED for a channel whose own sending direction is open (in-flight elements still '
-         'delivered; known finding KF-C09-channel-cancel-inflight). Tied to the code by the cancellation projection of recorded histories '
+         'cancels touch only their own stream. for a channel, payloads arriving after its receive direction closed are dropped (formerly finding KF-C09, repaired). Tied to the code by the cancellation projection of recorded histories '
          'of a real endpoint (cancel racing elements, completion, errors and connection loss in the same loop iteration) replayed '
          'through the model in Coq, plus the oracle. That the library\'s sources stop producing after cancel() is C06.',
     design_ref='DESIGN.md section 6, C09',
